@@ -11,3 +11,12 @@ RULES["C09"] = RULES["C09"] + (
     "(top-N by the stake of the voters whose stake and vote succeeded up to the snapshot height; undecided when a vote is in flight, failed, fewer candidates than seats or a tie at the last seat), "
     "with the old and the new set both tolerated one height either side of a switch; a block of a non-member is refused and not stored whatever slot it is dated for. "
     "distinct = (height mod 2 periods, producer, every node's seat list) digests; non-trivial = the run passed the first switch.")
+REALSTUB["C09"] = {
+    "real": ["consensus/impl/dpos (DPoS, Status, libStatus, block factory decision getBpInfo / generateBlock, IsBlockValid, VerifySign)", "consensus/impl/dpos/bp (Cluster, Snapshots: AddSnapshot, UpdateCluster, loadClusterSnapshot)",
+             "consensus/impl/dpos/slot", "chain service (addBlock, orphan pool, reorg), mempool admission", "contract/system (stake, voteBP, vote ranking, GetRankers) executed through the real tx executor", "types (block signing / header serialisation)"],
+    "stub": ["network (DPOS: seeded loss / duplication / reordering / partitions; ELECT: lock-step fault-free delivery)", "clocks (simclock, per-node skew)", "disk (simdisk implements aergo-lib db.DB)",
+             "LuaJIT VM (contract/zz_vm_stub.go; not exercised by these worlds)", "election period constant (100 blocks) replaced by 3-6 through the overlay seam bp.VerifElectionPeriod (ELECT only)",
+             "p2p / syncer / rpc services (hub adapters)"]}
+ASSUME["C09"] = ["sampling, not proof: 1-4 producers (+ up to 2 observers / spares), <= 160 steps per run; the slot-owner scan covers n <= 100 producers",
+                 "ELECT: the switch height of the producer set is not mirrored from the code: one height either side of a multiple of the period both the old and the new set are tolerated; membership is not judged when a vote is in flight, failed, fewer candidates than seats got votes, or the last seat is tied",
+                 "raft and sbp block factories (also anchored by the property) are not driven by these worlds", "overlay-derived files track the working tree by pattern"]
